@@ -295,6 +295,29 @@ class RecorderPolicy(RepoPolicy):
     def plugin_method(self, owner, param, meth):
         return False
 
+    def unknown_receiver(self, recv, meth, call, frame):
+        # consuming a value produced by user code with an operation that has type requirements may raise
+        # (dict.update / list.extend of a junk extractor result): a tolerated fault that must be contained
+        if meth in ('update', 'extend') and isinstance(call, ast.Call) and call.args and \
+                self._from_user_call(call.args[0], frame):
+            return Target('opaque', 'consume-user-value:' + meth, raises=self.excm.ordinary, role='lib')
+        return RepoPolicy.unknown_receiver(self, recv, meth, call, frame)
+
+    def _from_user_call(self, arg, frame, depth=0):
+        if isinstance(arg, ast.Call):
+            t = self.call_target(arg, frame)
+            if t.kind == 'inline':
+                # a local wrapper around user code
+                return any(isinstance(n, ast.Call) and self.call_target(n, frame_for(frame, t)).role in ('plugin', 'body', 'dynamic')
+                           for n in ast.walk(t.func.node)) if False else True
+            return t.role in ('plugin', 'body', 'dynamic')
+        if isinstance(arg, ast.Name) and depth < 2:
+            for n in walk_own(frame.func.node):
+                if isinstance(n, ast.Assign) and any(isinstance(t, ast.Name) and t.id == arg.id for t in n.targets):
+                    if self._from_user_call(n.value, frame, depth + 1):
+                        return True
+        return False
+
     def decide_inline(self, func, call, frame):
         """helpers that cannot touch recorder / recording / cassette state are summarised (may-raise set and
         None-ness of the result derived from their own graph) instead of inlined: static methods of the recorder and
@@ -421,7 +444,7 @@ class RecorderDomain(Domain):
             return True
         if name[0] == 'attr' and isinstance(name[1], tuple) and name[1][:1] == ('field',):
             return True
-        if name[0] == 'pure' and name[1] == 'builtin:hasattr':
+        if name[0] == 'pure' and name[1] in ('builtin:hasattr', 'builtin:callable'):
             return True
         if name[0] == 'fetched-recording-or-none':
             return True
